@@ -88,7 +88,8 @@ class Idioms(ast.NodeTransformer):
         torch.cat((a, b), dim=k) / stack          ->  torch.cat([a, b], k)
         f(x, dim=k) / x.m(dim=k) for the usual reductions -> positional k
         torch.where(m, torch.full_like(t, v), t)  ->  t.masked_fill(m, v)
-        torch.where(m, t, torch.zeros_like(t))    ->  t.masked_fill(~m, 0.0)"""
+        torch.where(m, t, torch.zeros_like(t))    ->  t.masked_fill(~m, 0.0)
+        a @ b                                     ->  torch.matmul(a, b)"""
 
     def visit_Call(self, node: ast.Call):
         self.generic_visit(node)
@@ -139,6 +140,13 @@ class Idioms(ast.NodeTransformer):
                     func=ast.Name(id="float", ctx=ast.Load()), args=[ast.Constant(value="inf")], keywords=[])), node)
             if sv in ("inf", "+inf", "infinity"):
                 node.args = [ast.Constant(value="inf")]
+        return node
+
+    def visit_BinOp(self, node: ast.BinOp):
+        self.generic_visit(node)
+        if isinstance(node.op, ast.MatMult):  # a @ b  ->  torch.matmul(a, b)
+            return ast.copy_location(ast.Call(func=ast.Attribute(value=ast.Name(id="torch", ctx=ast.Load()), attr="matmul", ctx=ast.Load()),
+                                              args=[node.left, node.right], keywords=[]), node)
         return node
 
     def visit_Attribute(self, node: ast.Attribute):
